@@ -1,6 +1,7 @@
 import Driver.Proto
 import Driver.Ops.C03
 import PqModel.Convert
+import PqModel.ConvertChunks
 
 /-! Ops for C12: schema conversion of one row.
     Named node text: `F` leaf | `G(<name>:<rp><node>,...)` group (`G()` is not used), rp = `q` required,
@@ -34,6 +35,28 @@ partial def parsePFields : List Char → Option (PFields × List Char)
     | _ => none
 end
 
+/-- ops of `convert.fwd`: `r<cap>` = ReadRows with a buffer of `cap` rows, `s<row>` = SeekToRow -/
+def fwdOps (st : Fwd Nat) (dead : Bool) : List String → List String
+  | [] => []
+  | op :: ops =>
+    if dead then "dead" :: fwdOps st true ops else
+    match op.toList with
+    | 'r' :: ds =>
+      match (String.ofList ds).toNat? with
+      | some cap =>
+        match Fwd.read cap (st.rest.length + 1) st with
+        | (.rows xs, st') => showList toString xs :: fwdOps st' false ops
+        | (.panic, st') => "panic" :: fwdOps st' true ops
+      | none => ["bad"]
+    | 's' :: ds =>
+      match (String.ofList ds).toNat? with
+      | some row =>
+        match st.seekTo row with
+        | some st' => "ok" :: fwdOps st' false ops
+        | none => "err" :: fwdOps st false ops
+      | none => ["bad"]
+    | _ => ["bad"]
+
 /-- `convert.run <src> <tgt> <val>` →
     `ok <conforms 0/1> <subN 0/1> <addN 0/1> <wf 0/1> | <mirror: convertRow src tgt (shred src v)> | <spec: shred tgt (project v)> | <project v>` -/
 def handle (toks : List String) : Option String :=
@@ -48,6 +71,25 @@ def handle (toks : List String) : Option String :=
       let b (x : Bool) : String := if x then "1" else "0"
       s!"ok {b (confN (eraseN s) v)} {b (subN s t)} {b (addN 0 s t)} {b (wfN (eraseN s))} | {Driver.Ops.C03.showCols out} | {Driver.Ops.C03.showCols exp} | {Driver.Ops.C03.showVal pv}"
     | _, _, _ => "bad-op"
+  | ["convert.chunks", ss, ts, ns, vs] => some <|
+    -- `ok | <chunkView of the joined streams> | <rowView>`: values separated by `;`
+    match parsePNode ss.toList, parsePNode ts.toList, ns.toNat?, (vs.splitOn ";").mapM (fun x => Driver.Ops.C03.parseVal x.toList) with
+    | some (s, []), some (t, []), some n, some pvs =>
+      if pvs.all (fun p => p.2.isEmpty) then
+        let rows := pvs.map (·.1)
+        let cols := joinRows (leavesP s) (rows.map (shred s))
+        s!"ok | {Driver.Ops.C03.showCols (chunkView s t cols n)} | {Driver.Ops.C03.showCols (rowView s t rows)}"
+      else "bad-op"
+    | _, _, _, _ => "bad-op"
+  | ["convert.sorting", flags] => some <|
+    -- which of the source's sorting columns survive (1/0, comma separated) -> how many are declared
+    match parseList? parseNat? flags with
+    | some fs => s!"ok {(carrySorting (fun x => x != 0) fs).length}"
+    | none => "bad-op"
+  | ["convert.fwd", total, ops] => some <|
+    match total.toNat? with
+    | some n => "ok " ++ ";".intercalate (fwdOps { rest := List.range n, seek := 0, index := 0 } false (ops.splitOn ";"))
+    | none => "bad-op"
   | _ => none
 
 end Driver.Ops.C12
